@@ -226,7 +226,7 @@ fn short(s: &str) -> String {
 }
 
 fn phase_diagrams(m: &mut Monitor, cfg: &Config, cases: &[PureCase]) {
-    let n = cfg.tier.pick(150, 3000);
+    let n = cfg.tier.pick(150, 10_000);
     let idx: Vec<u64> = (0..n).collect();
     par_cases(m, &idx, |m, _, &i| {
         let mut rng = Rng::derive(cfg.seed, "c04-diagram", i);
@@ -297,7 +297,7 @@ fn phase_diagrams(m: &mut Monitor, cfg: &Config, cases: &[PureCase]) {
 /// vapor_pressure / boiling_temperature / vle_pure_comps on mixtures equal the pure-model call
 fn mixture_helpers(m: &mut Monitor, cfg: &Config) {
     let col = Collections::load();
-    let n = cfg.tier.pick(250, 8000);
+    let n = cfg.tier.pick(250, 30_000);
     let idx: Vec<u64> = (0..n).collect();
     par_cases(m, &idx, |m, _, &i| {
         let mut rng = Rng::derive(cfg.seed, "c04-mix", i);
@@ -363,7 +363,7 @@ fn mixture_helpers(m: &mut Monitor, cfg: &Config) {
 
 /// conditions whenever Ok for random PR / PeTS / uv-theory models and random T
 fn random_models(m: &mut Monitor, cfg: &Config) {
-    let n = cfg.tier.pick(1500, 60_000);
+    let n = cfg.tier.pick(1500, 200_000);
     let idx: Vec<u64> = (0..n).collect();
     let col = Collections::load();
     par_cases(m, &idx, |m, _, &i| {
